@@ -901,6 +901,17 @@ func vhLoadCases(d *vhDump, bound int) []vhLoadCase {
 			m.Graphs[gi].Files = dup
 			retotal(m)
 		})
+		for _, spelling := range []string{"./", "x/../", ".//"} {
+			spelling := spelling
+			edit("entry duplicated under another spelling ("+spelling+") totals-consistent "+at, false, func(m *Manifest) {
+				files := m.Graphs[gi].Files
+				again := files[fi]
+				again.Path = spelling + again.Path
+				dup := append(append(append([]FileManifest(nil), files[:fi+1]...), again), files[fi+1:]...)
+				m.Graphs[gi].Files = dup
+				retotal(m)
+			})
+		}
 		edit("entry dropped totals-inconsistent "+at, false, func(m *Manifest) {
 			files := m.Graphs[gi].Files
 			m.Graphs[gi].Files = append(append([]FileManifest(nil), files[:fi]...), files[fi+1:]...)
